@@ -3,6 +3,9 @@
 package route
 
 import (
+	"bytes"
+	"regexp"
+
 	dest "github.com/grafana/carbon-relay-ng/destination"
 	"github.com/grafana/carbon-relay-ng/matcher"
 )
@@ -61,4 +64,71 @@ func verifNameBytes2(tag string, n int) []byte {
 		verifAssume(c > 0x20 && c < 0x7f)
 	}
 	return b
+}
+
+// VerifC03UpdatedFilter: a filter changed at runtime (modRoute / modDest -> baseRoute.Update /
+// Destination.Update) means exactly the documented conjunction of its options *as they are after the change*:
+// an option set to a new value uses the new value, an option set to the empty string imposes no constraint
+// any more, an option not named keeps its old value. The route / destination starts with all six options
+// set; up to two of them are changed (cleared or replaced), which ones is chosen by the solver; the decision
+// on a free name of 1..3 bytes is compared with the conjunction written out here (regular expressions through
+// the regexp package itself, not through the matcher).
+func VerifC03UpdatedFilter() {
+	names := []string{"prefix", "notPrefix", "sub", "notSub", "regex", "notRegex"}
+	cur := []string{"a", "ax", "b", "bb", "^ab", "c$"}
+	repl := []string{"b", "bx", "c", "cc", "b$", "^c"}
+	m0, err := matcher.New(cur[0], cur[1], cur[2], cur[3], cur[4], cur[5])
+	if err != nil {
+		panic(err)
+	}
+	opts := map[string]string{}
+	changed := 0
+	for i := range names {
+		if changed >= 2 {
+			break
+		}
+		switch verifChoice(names[i], 3) {
+		case 1:
+			opts[names[i]] = ""
+			cur[i] = ""
+			changed++
+		case 2:
+			opts[names[i]] = repl[i]
+			cur[i] = repl[i]
+			changed++
+		}
+	}
+	name := verifNameBytes(1 + verifChoice("namelen", 3))
+	var got bool
+	if verifParam("where") == "dest" {
+		d := verifSinkDest(m0, "127.0.0.1:2003")
+		verifAssert(d.Update(opts) == nil, "update-accepted")
+		got = d.Match(name)
+	} else {
+		all, _ := matcher.New("", "", "", "", "", "")
+		r := verifAllMatch(m0, []*dest.Destination{verifSinkDest(all, "127.0.0.1:2003")})
+		verifAssert(r.Update(opts) == nil, "update-accepted")
+		got = r.Match(name)
+	}
+	want := true
+	if !bytes.HasPrefix(name, []byte(cur[0])) {
+		want = false
+	}
+	if cur[1] != "" && bytes.HasPrefix(name, []byte(cur[1])) {
+		want = false
+	}
+	if !bytes.Contains(name, []byte(cur[2])) {
+		want = false
+	}
+	if cur[3] != "" && bytes.Contains(name, []byte(cur[3])) {
+		want = false
+	}
+	if cur[4] != "" && !regexp.MustCompile(cur[4]).Match(name) {
+		want = false
+	}
+	if cur[5] != "" && regexp.MustCompile(cur[5]).Match(name) {
+		want = false
+	}
+	verifAssert(got == want, "changed-filter-means-the-conjunction-of-its-new-options")
+	verifCover("end")
 }
